@@ -69,6 +69,9 @@ MUTANTS = [
     ('c05-sequential-reference-rewrite-unfixed', 'C05', 'c05', 150, 'python/experiment/model/frontends/flowir.py',
      "        value = re.sub(pattern, substitute, value)\n",
      "        for _m in list(rewrites):\n            value = re.sub(r'\\b' + re.escape(_m) + r'\\b', rewrites[_m].replace('\\\\', '\\\\\\\\'), value, 1)\n"),
+    ('c05-foreign-components-from-replicated-description-unfixed', 'C05', 'c05', 150, 'python/experiment/model/graph.py',
+     "        foreign_components = self.configuration._unreplicated.get_component_identifiers(True, False)\n",
+     "        foreign_components = self._concrete.get_component_identifiers(True, False)\n"),
     ('c14-instance-description-written-in-place', 'C14', 'c14rt', 192, 'python/experiment/model/conf.py',
      "        temp_file = '%s.%s.tmp' % (instance_file, uuid.uuid4())\n", "        temp_file = instance_file\n"),
     ('c14-status-written-in-place', 'C14', 'c14rt', 192, 'python/experiment/model/data.py',
